@@ -3,7 +3,8 @@
 //!
 //! This is the front end only. The parsers are built and run by worker executables that sit next to this one
 //! (`hw-<ikind>-<ekind>`, `hw-array<N>-<ekind>`; see `hcore::worker`), one per input kind and error type: that
-//! way the generic instantiations of chumsky compile in parallel. Each worker that a case file needs is spawned
+//! way the generic instantiations of chumsky compile in parallel. History lines (`(H ...)`) go to the `str` /
+//! `slice` worker of their combination, thread lines (`(T ...)`) to `hw-threads`. Each worker that a case file needs is spawned
 //! once; a case line is written to its stdin and the result line read back from its stdout before the next
 //! case is looked at, so the per-case behaviour (`catch_unwind`, silenced panic hook, panic classification —
 //! all inside the worker) and the output order are those of a single process.
@@ -13,9 +14,9 @@ use std::io::{BufRead, BufReader, BufWriter, Write};
 use std::path::PathBuf;
 use std::process::{Child, ChildStdin, ChildStdout, Command, Stdio};
 
-use hcore::ast::{self, IKind};
+use hcore::ast::{self, IKind, LineKind};
 use hcore::sexp;
-use hcore::worker::{worker_name, ARRAY_MAX};
+use hcore::worker::{worker_name, ARRAY_MAX, THREADS_WORKER};
 
 struct Worker {
     child: Child,
@@ -156,6 +157,22 @@ fn route(line: &str, why: bool) -> Route {
         Some(id) => id,
         None => return Route::Skip,
     };
+    match ast::line_kind(&sexp) {
+        LineKind::Plain => {}
+        LineKind::Threads => return Route::Worker(id, THREADS_WORKER.to_string()),
+        LineKind::History => {
+            return match ast::hcase_kinds(&sexp) {
+                // only the `str` and `slice` workers serve histories
+                Some((ikind @ (IKind::Str | IKind::Slice), ekind)) => Route::Worker(id, worker_name(ikind, ekind, 0)),
+                _ => {
+                    if why {
+                        eprintln!("{id}: malformed history case, or input kind other than str / slice");
+                    }
+                    Route::Answer(id, "UNSUPPORTED")
+                }
+            };
+        }
+    }
     let (ikind, ekind) = match ast::case_kinds(&sexp) {
         Some(k) => k,
         None => {
